@@ -37,6 +37,33 @@ def extract_items():
     return text, {'versions_base': inner[0].text, 'dedup_all_keep_last_by': dedup.text}
 
 
+def run_versions_verus():
+    """Unbounded Verus proof of the versions_base contract on the function extracted verbatim from the source file."""
+    from contracts import kernels as tmpl
+    from .splice import Splicer
+    from .locate import Locator
+    from .common import WORK, run_verus, classify_verus, verus_functions
+    text, items = extract_items()
+    # items only (drop the crate-level allow attribute line of the native extraction)
+    body = '\n'.join(l for l in text.split('\n') if not l.startswith('#![') and not l.startswith('// GENERATED'))
+    sp = Splicer({'ascent_macro_src': Source(body, 'ascent_macro_src')})
+    out = sp.render(tmpl.template())
+    path = os.path.join(WORK, 'units', 'kernels_unit.rs')
+    os.makedirs(os.path.dirname(path), exist_ok=True)
+    canary = '\nverus! {\nproof fn __vacuity_canary()\n    ensures false\n{\n}\n}\n'
+    with open(path, 'w') as f:
+        f.write(out + canary)
+    res = run_verus(path, timeout=600)
+    st, fails, why = classify_verus(res, canary='__vacuity_canary')
+    loc = Locator(open(path).read(), path)
+    r = {'path': path, 'log': sp.log, 'status': st, 'inconclusive': why if st == 'inconclusive' else None, 'failures': [],
+         'functions': verus_functions(res), 'verus_s': res['wall_s']}
+    for f in fails:
+        name, pick, clause = loc.name_failure(f)
+        r['failures'].append({'obligation': name, 'fn': pick[1], 'kind': f['kind'], 'verifier_output': f['text']})
+    return r
+
+
 def run_kernels(tier, which):
     """which: subset of {'versions','dedup'}"""
     text, items = extract_items()
@@ -52,6 +79,46 @@ def run_kernels(tier, which):
     if 'dedup' in which:
         ln, al = (7, 3) if tier == 'quick' else (9, 3)
         plans.append(('dedup', ['dedup', str(ln), str(al)], 'all vectors of length <= %d over {0..%d} x relations {==, same parity}' % (ln, al - 1)))
+    if 'versions' in which:
+        # beyond the exhaustive bound: one SMT query per n (is there an assignment with a delta that no returned vector admits?),
+        # discharged by z3; a model is replayed natively against the real function
+        nmax = 64 if tier == 'quick' else 128
+        t0 = time.time()
+        queries = 0
+        for n in range(1, nmax + 1):
+            rc, so, se, dt = run([binary, 'versions-dump', str(n)], timeout=600)
+            if rc != 0:
+                raise Inconclusive('kernels versions-dump %d failed: %s' % (n, se[-500:]))
+            vecs = re.findall(r'^VEC (\w*)$', so, re.M)
+            smt = ['(set-logic QF_UF)'] + ['(declare-const a%d Bool)' % j for j in range(n)]
+            smt.append('(assert (or %s))' % ' '.join('a%d' % j for j in range(n)) if n > 1 else '(assert a0)')
+            bad_len = [v for v in vecs if len(v) != n]
+            for v in vecs:
+                if len(v) != n or 'N' in v:
+                    continue
+                lits = [('(not a%d)' % j) if c == 'T' else ('a%d' % j) for j, c in enumerate(v) if c in 'TD']
+                smt.append('(assert (not (and true %s)))' % ' '.join(lits))
+            smt += ['(check-sat)', '(get-model)']
+            rc, so2, se2, dt2 = run(['z3', '-in'], stdin='\n'.join(smt) + '\n', timeout=120)
+            queries += 1
+            first = so2.strip().split('\n')[0] if so2.strip() else ''
+            if first == 'unsat' and not bad_len:
+                continue
+            if first == 'sat' or bad_len:
+                if first == 'sat':
+                    model = dict(re.findall(r'\(define-fun a(\d+) \(\) Bool\s+(true|false)\)', so2))
+                    asg = ''.join('d' if model.get(str(j)) == 'true' else 't' for j in range(n))
+                else:
+                    asg = 'd' + 't' * (n - 1)
+                rc3, so3, se3, dt3 = run([binary, 'versions-check', str(n), asg], timeout=120)
+                if rc3 == 1:
+                    out['failures'].append({'kernel': 'versions', 'obligation': 'versions_cover_every_assignment_with_a_delta',
+                                            'input': 'n=%d assignment=%s (z3 model, replayed natively)' % (n, asg), 'cmd': '%s versions-check %d %s' % (binary, n, asg)})
+                    break
+                raise Inconclusive('z3 model for n=%d does not replay on the real function' % n)
+            raise Inconclusive('z3 gave %r for n=%d: %s' % (first, n, se2[-300:]))
+        out['results']['versions_smt'] = {'evaluated': queries, 'domain': 'one z3 query per n in 1..=%d over the vectors returned by the real function: no assignment with a delta is left unadmitted' % nmax,
+                                          'time': time.time() - t0, 'failures': len(out['failures'])}
     for name, args, dom in plans:
         rc, so, se, dt = run([binary] + args, timeout=3600)
         m = re.search(r'EVALUATED (\d+)', so)
